@@ -36,6 +36,9 @@ pub struct Group {
     /// form "U": self-contained queries (uninterpreted-function / integer logic), each with the
     /// verdict it must get
     pub raw: Vec<RawQuery>,
+    /// pairs that were already the same term after hash-consing (no solver call needed)
+    #[serde(default)]
+    pub n_syntactic: usize,
 }
 
 #[derive(Serialize, Clone, Debug)]
@@ -46,7 +49,7 @@ pub struct RawQuery {
 }
 
 pub fn raw_group(name: &str, claim: &str, raw: Vec<RawQuery>) -> Group {
-    Group { name: name.to_string(), form: "U".into(), preamble: String::new(), items: vec![], vars: vec![], n_inverses: 0, n_terms: 0, claim: claim.to_string(), only_if_failed: None, extra_asserts: vec![], late_degree: 0, raw }
+    Group { name: name.to_string(), form: "U".into(), preamble: String::new(), items: vec![], vars: vec![], n_inverses: 0, n_terms: 0, claim: claim.to_string(), only_if_failed: None, extra_asserts: vec![], late_degree: 0, raw, n_syntactic: 0 }
 }
 
 #[derive(Serialize, Clone, Debug)]
@@ -175,6 +178,7 @@ pub fn identity_group_raw(name: &str, form: &str, claim: &str, items: Vec<(Strin
             extra_asserts: vec![],
             late_degree: 0,
             raw: vec![],
+            n_syntactic: items.len() - kept.len(),
         }
     })
 }
@@ -304,6 +308,6 @@ pub fn rejection_query_group(name: &str, only_if_failed: &str, residual: &Lin, n
         if !nonzero.is_empty() {
             extra.push(format!("(assert (or {}))", nonzero.iter().map(|e| format!("(not (= t{} 0.0))", e)).collect::<Vec<_>>().join(" ")));
         }
-        Ok(Group { name: name.to_string(), form: "R".into(), preamble: pre, items, vars, n_inverses: ninv, n_terms, claim: claim.to_string(), only_if_failed: Some(only_if_failed.to_string()), extra_asserts: extra, late_degree: deg, raw: vec![] })
+        Ok(Group { name: name.to_string(), form: "R".into(), preamble: pre, items, vars, n_inverses: ninv, n_terms, claim: claim.to_string(), only_if_failed: Some(only_if_failed.to_string()), extra_asserts: extra, late_degree: deg, raw: vec![], n_syntactic: 0 })
     })
 }
